@@ -229,6 +229,43 @@ func (r *Rec) Block() {
 	r.mu.Unlock()
 }
 
+// Allow lets exactly n more packs through a blocked consumer, which then parks
+// again (a consumer that reads a little and stalls again). Only meaningful
+// after Block.
+func (r *Rec) Allow(n int) {
+	for i := 0; i < n; i++ {
+		// the consumer must be waiting at the current gate (it has a backlog, so it will be)
+		deadline := time.Now().Add(5 * time.Second)
+		for !r.Parked() {
+			if time.Now().After(deadline) {
+				return
+			}
+			time.Sleep(20 * time.Microsecond)
+		}
+		r.mu.Lock()
+		g := r.gate
+		if g == nil {
+			r.mu.Unlock()
+			return
+		}
+		// open the gate for one Consume call: swap in a fresh gate first so the next call parks again
+		r.gate = make(chan struct{})
+		before := len(r.got)
+		r.mu.Unlock()
+		close(g)
+		// wait until that one pack has been recorded (the consumer goroutine is the only reader)
+		for {
+			r.mu.Lock()
+			n2 := len(r.got)
+			r.mu.Unlock()
+			if n2 > before {
+				break
+			}
+			time.Sleep(20 * time.Microsecond)
+		}
+	}
+}
+
 // Release lets a parked Consume continue and stops blocking.
 func (r *Rec) Release() {
 	r.mu.Lock()
